@@ -57,6 +57,10 @@ def routing_case(draw, sub, focus="filters"):
         o["cut1"] = [draw(st.sampled_from([1, 2, -2, 4]))]
     if fastq and draw(st.integers(0, 3)) == 0:
         o["q1_arg"] = draw(st.sampled_from(["10", "20", "5,15"]))
+    if fastq and draw(st.integers(0, 4)) == 0:
+        o["nextseq"] = draw(st.sampled_from([10, 20]))
+    if fastq and paired and draw(st.integers(0, 5)) == 0:
+        o["q2_arg"] = draw(st.sampled_from(["12", "3,18"]))
     if draw(st.integers(0, 4)) == 0:
         o["poly_a"] = True
     if draw(st.integers(0, 4)) == 0:
